@@ -30,6 +30,7 @@ type specFn struct {
 	ret      string
 	body     *Expr
 	abstract bool
+	opaque   bool // used through a named application; the definition is a separate (universally closed) fact
 	pkg      string
 }
 
@@ -80,7 +81,7 @@ type ContractSet struct {
 }
 
 var clauseKeywords = map[string]bool{"func": true, "interface": true, "spec": true, "abstract": true, "requires": true, "ensures": true,
-	"assigns": true, "loop": true, "decreases": true, "arith": true, "pure": true, "lemma": true, "trusted": true, "noframe": true, "invariant": true, "nonnil": true, "names": true}
+	"assigns": true, "loop": true, "decreases": true, "arith": true, "pure": true, "lemma": true, "trusted": true, "noframe": true, "invariant": true, "nonnil": true, "names": true, "ospec": true}
 
 func loadContracts(files []string) (*ContractSet, error) {
 	cs := &ContractSet{funcs: map[string]*Contract{}, ifaces: map[string]*Contract{}, specs: map[string]*specFn{}, invs: map[string][]*TypeInv{}, nonnil: map[string]bool{}}
@@ -153,11 +154,12 @@ func (cs *ContractSet) loadFile(path string) error {
 				cs.funcs[ct.Key] = ct
 			}
 			cur = ct
-		case "spec", "abstract":
+		case "spec", "abstract", "ospec":
 			sf, err := parseSpec(rest, kw == "abstract")
 			if err != nil {
 				return fail(err)
 			}
+			sf.opaque = kw == "ospec"
 			sf.pkg = pkg
 			cs.specs[sf.name] = sf
 			cur = nil
